@@ -129,4 +129,96 @@ def evolveUntilX (kids : Entry → List (Rat × Nat)) (raises : Entry → Bool) 
 def kidsExcept (kids : Entry → List (Rat × Nat)) (e : Entry) : Entry → List (Rat × Nat) :=
   fun x => if x = e then [] else kids x
 
+/-! ### Re-entrancy: a callback that itself calls `evolve_until` (round 6)
+
+Decided from the code: the loop variables of `evolve_until` (`t`, `end`, `t_next`) are locals of each
+activation, the heap, the clock and the counter are shared.  The entry has been popped before its
+callback is called, so a nested `self.evolve_until(T2)` made from inside a callback runs the very same
+loop on the shared state — it pops and executes everything due before `T2`, bridges to `T2` — and
+when it returns the outer activation goes on with what is left.  A nested target below the clock
+raises `ValueError`, which leaves the callback and the outer call like any exception of a callback
+(the entry is gone, the clock stands where the callback saw it).  `Body`: what a callback does —
+schedule `pre`, then possibly call `evolve_until(nested)`, then schedule `post`. -/
+
+structure Body where
+  pre : List (Rat × Nat)
+  nested : Option Rat
+  post : List (Rat × Nat)
+deriving Repr, DecidableEq
+
+/-- `loop` with callbacks that may re-enter `evolve_until`.  The fuel bounds the nesting-and-iteration
+depth (each activation of the loop body passes `fuel` on to the nested call and to its own
+continuation). -/
+def loopR (acts : Entry → Body) (T : Rat) : Nat → Sys → Run
+  | 0, s => ⟨.outOfFuel, s, []⟩
+  | fuel + 1, s =>
+    match s.queue with
+    | e :: rest =>
+      if e.time < T then
+        let a := advance { s with queue := rest } (e.time - s.t)
+        let s1 := addAll a.1 (acts e).pre
+        match (acts e).nested with
+        | none =>
+          let r := loopR acts T fuel (addAll s1 (acts e).post)
+          { r with trace := a.2 ++ Event.fire e a.1.t :: r.trace }
+        | some T2 =>
+          if T2 < s1.t then
+            -- the nested call is refused: ValueError leaves the callback and the outer call
+            ⟨.backwards, s1, a.2 ++ [Event.fire e a.1.t]⟩
+          else
+            let n := loopR acts T2 fuel s1
+            if n.status = .ok then
+              let r := loopR acts T fuel (addAll n.s (acts e).post)
+              { r with trace := a.2 ++ Event.fire e a.1.t :: (n.trace ++ r.trace) }
+            else
+              { n with trace := a.2 ++ Event.fire e a.1.t :: n.trace }
+      else
+        let a := advance s (T - s.t)
+        ⟨.ok, a.1, a.2⟩
+    | [] =>
+      let a := advance s (T - s.t)
+      ⟨.ok, a.1, a.2⟩
+
+def evolveUntilR (acts : Entry → Body) (fuel : Nat) (s : Sys) (T : Rat) : Run :=
+  if T < s.t then ⟨.backwards, s, []⟩ else loopR acts T fuel s
+
+/-- callbacks that never re-enter, as bodies -/
+def plainBody (kids : Entry → List (Rat × Nat)) (e : Entry) : Body := ⟨kids e, none, []⟩
+
+/-- the body of a callback that schedules `kids e` and, after the first `k` of them, calls
+`evolve_until(e.time + d)` — the shape the harness's re-entering callbacks have -/
+def nestBody (kids : Entry → List (Rat × Nat)) (nest : Entry → Option (Rat × Nat)) (e : Entry) : Body :=
+  match nest e with
+  | none => plainBody kids e
+  | some (d, k) => ⟨(kids e).take k, some (e.time + d), (kids e).drop k⟩
+
+/-! ### A callback that raises at once, with callbacks that read the clock (round 6)
+
+`loopX` with the clock handed to the callbacks (`loopC`'s callbacks): the docstring idiom
+`add_callback(self.t + period, ...)` combined with a callback that raises before doing anything. -/
+
+def loopXC (kidsC : Rat → Entry → List (Rat × Nat)) (raises : Entry → Bool) (T : Rat) : Nat → Sys → RunX
+  | 0, s => ⟨⟨.outOfFuel, s, []⟩, none⟩
+  | fuel + 1, s =>
+    match s.queue with
+    | e :: rest =>
+      if e.time < T then
+        let a := advance { s with queue := rest } (e.time - s.t)
+        if raises e then ⟨⟨.outOfFuel, a.1, a.2 ++ [Event.fire e a.1.t]⟩, some e⟩
+        else
+          let r := loopXC kidsC raises T fuel (addAll a.1 (kidsC a.1.t e))
+          ⟨{ r.run with trace := a.2 ++ Event.fire e a.1.t :: r.run.trace }, r.raisedAt⟩
+      else
+        let a := advance s (T - s.t)
+        ⟨⟨.ok, a.1, a.2⟩, none⟩
+    | [] =>
+      let a := advance s (T - s.t)
+      ⟨⟨.ok, a.1, a.2⟩, none⟩
+
+def kidsExceptC (kidsC : Rat → Entry → List (Rat × Nat)) (e : Entry) : Rat → Entry → List (Rat × Nat) :=
+  fun clk x => if x = e then [] else kidsC clk x
+
+def evolveUntilXC (kidsC : Rat → Entry → List (Rat × Nat)) (raises : Entry → Bool) (fuel : Nat) (s : Sys) (T : Rat) : RunX :=
+  if T < s.t then ⟨⟨.backwards, s, []⟩, none⟩ else loopXC kidsC raises T fuel s
+
 end HcipyVerif.Scheduler
